@@ -40,6 +40,17 @@ def fit_value(coef, x, T):
 
 
 def concrete(inp):
+    """real non-ideal runs (also started exactly at the single curve's temperature)"""
+    outs = [_concrete_one(inp)]
+    if inp.get("n_curves") == 1:
+        outs.append(_concrete_one(dict(inp, T0=313.15, A=0.4)))
+    for o in outs:
+        if not o["ok"]:
+            return o
+    return outs[0]
+
+
+def _concrete_one(inp):
     """real non-ideal run: permeances follow the returned fits with a constant factor fixed by step 0"""
     kind = inp.get("kind", "non_ideal_non_isothermal_process")
     i = {"A": 0.05, "T0": 330.0, "m0": 3.0, "x0": 0.35, "dt": 0.2, "N": 4, "prec": 5e-5}
@@ -126,9 +137,15 @@ def _check_returned_fits(job, tag, ps, cs, inputs, fits, Tfeed, rescaled_expecte
             unchanged = fit_value(orig, xq, Tq)
             # either the Arrhenius re-scaled function, or (modelling temperature == curve temperature) the search result itself
             lhs = terms.exp_normal(v_got)
-            job.prove(tag + "/returned_fit%d_is_arrhenius_rescaled_or_search_result" % (i + 1), cs + [Tq.t > 273, Tq.t < 400, xq.t >= 0, xq.t <= 1],
-                      z3.And(lhs != terms.exp_normal(want), z3.Or(lhs != terms.exp_normal(unchanged), lift(Tc) != lift(Tfeed))),
-                      R_, inputs, congruence=["EXP"], timeout=40)
+            if rescaled_expected:
+                # the model evaluates the function at temperatures other than the curve's (self-cooling / programme): it must carry the
+                # membrane's activation energy whatever the initial temperature is
+                job.prove(tag + "/returned_fit%d_is_arrhenius_rescaled" % (i + 1), cs + [Tq.t > 273, Tq.t < 400, xq.t >= 0, xq.t <= 1],
+                          lhs != terms.exp_normal(want), R_, inputs, congruence=["EXP"], timeout=40)
+            else:
+                job.prove(tag + "/returned_fit%d_is_arrhenius_rescaled_or_search_result" % (i + 1), cs + [Tq.t > 273, Tq.t < 400, xq.t >= 0, xq.t <= 1],
+                          z3.And(lhs != terms.exp_normal(want), z3.Or(lhs != terms.exp_normal(unchanged), lift(Tc) != lift(Tfeed))),
+                          R_, inputs, congruence=["EXP"], timeout=40)
         else:
             job.prove(tag + "/returned_fit%d_is_search_result" % (i + 1), cs + [Tq.t > 273, Tq.t < 400], v_got != fit_value(orig, xq, Tq), R_, inputs,
                       congruence=["EXP"], timeout=40)
